@@ -33,3 +33,251 @@ def drain_log():
     recs = LOG_CAPTURE.records
     LOG_CAPTURE.records = []
     return recs
+
+
+# ----------------------------------------------------------------------------------------------------
+# fault exception types
+
+
+class SimFault(RuntimeError):
+    """F1: a user callback reports failure."""
+
+
+class SimAllocFailure(RuntimeError):
+    """F3: allocation failure / interrupt at an arbitrary Python line of the library."""
+
+
+# ----------------------------------------------------------------------------------------------------
+# randn source
+
+
+import os
+import sys
+
+import torch
+
+REAL = {
+    "randn": torch.randn,
+    "cholesky_ex": torch.linalg.cholesky_ex,
+    "eigh": torch.linalg.eigh,
+    "eigvalsh": torch.linalg.eigvalsh,
+    "svd": torch.linalg.svd,
+    "qr": torch.linalg.qr,
+}
+
+_SAMPLER_FUNCS = {"zero_mean_mvn_samples"}
+
+
+class RandnSource:
+    """Replacement for torch.randn backed by a private generator that the simulator reseeds before every
+    query, so that a historied object and its fresh copy see identical draws.  Dispatches on the calling
+    function: sampler sites can be switched to probe (basis-vector) mode, algorithm-internal sites
+    (Lanczos start vectors, randomized preconditioner, SLQ probes) always get seeded Gaussian draws."""
+
+    def __init__(self):
+        self.gen = torch.Generator()
+        self.draws = []
+        self.probing = False
+        self.probe_total = None
+        self._sel = None
+        self._offset = 0
+
+    def reseed(self, seed):
+        self.gen.manual_seed(seed & 0x7FFFFFFFFFFFFFFF)
+        self.draws = []
+
+    def probe_begin(self):
+        self.probing = True
+        self.probe_total = None
+        self._sel = None
+        self._offset = 0
+
+    def probe_select(self, j):
+        self._sel = j
+        self._offset = 0
+
+    def probe_end(self):
+        self.probing = False
+        self._sel = None
+
+    def __call__(self, *size, **kw):
+        if len(size) == 1 and isinstance(size[0], (tuple, list, torch.Size)):
+            size = tuple(size[0])
+        caller = sys._getframe(1).f_code.co_name
+        self.draws.append((caller, tuple(int(s) for s in size), str(kw.get("dtype"))))
+        if self.probing and caller in _SAMPLER_FUNCS:
+            kw2 = {k: v for k, v in kw.items() if k in ("dtype", "device")}
+            out = torch.zeros(*size, **kw2)
+            n = out.numel()
+            if self._sel is None:
+                # counting call: zero noise
+                self._offset += n
+                self.probe_total = self._offset
+            else:
+                j = self._sel - self._offset
+                if 0 <= j < n:
+                    out.view(-1)[j] = 1.0
+                self._offset += n
+            return out
+        kw = dict(kw)
+        kw.pop("generator", None)
+        return REAL["randn"](*size, generator=self.gen, **kw)
+
+
+RANDN = RandnSource()
+
+
+# ----------------------------------------------------------------------------------------------------
+# torch.linalg seams (F2a, F2b) with call counting
+
+
+class LinalgSeam:
+    """Wraps torch.linalg.{cholesky_ex,eigh,eigvalsh,svd,qr}: counts calls; F2a makes cholesky_ex report
+    failure for all members on `attempts` consecutive calls starting at call index k; F2b makes the k-th call
+    of one of the others raise LinAlgError.  A real failure is never masked."""
+
+    def __init__(self):
+        self.counts = {k: 0 for k in ("cholesky_ex", "eigh", "eigvalsh", "svd", "qr")}
+        self.armed = None  # dict(kind=..., fn=..., at=..., attempts=...)
+        self.fired = 0
+
+    def reset(self):
+        for k in self.counts:
+            self.counts[k] = 0
+        self.armed = None
+        self.fired = 0
+
+    def cholesky_ex(self, A, *, upper=False, check_errors=False, out=None):
+        L, info = REAL["cholesky_ex"](A, upper=upper, check_errors=check_errors, out=out)
+        self.counts["cholesky_ex"] += 1
+        a = self.armed
+        if a is not None and a["fn"] == "cholesky_ex":
+            c = self.counts["cholesky_ex"]
+            if a["at"] <= c < a["at"] + a["attempts"]:
+                self.fired += 1
+                info = torch.ones_like(info) if out is None else info.fill_(1)
+                if out is None:
+                    L = L.clone()
+                L.fill_(float("nan"))
+        return L, info
+
+    def _raiser(self, name):
+        def f(*args, **kw):
+            self.counts[name] += 1
+            a = self.armed
+            if a is not None and a["fn"] == name and self.counts[name] == a["at"]:
+                self.fired += 1
+                raise torch.linalg.LinAlgError(f"linalg.{name}: (injected) the algorithm failed to converge")
+            return REAL[name](*args, **kw)
+
+        f.__name__ = name
+        return f
+
+
+LINALG = LinalgSeam()
+_EIGH, _EIGVALSH, _SVD, _QR = (LINALG._raiser(n) for n in ("eigh", "eigvalsh", "svd", "qr"))
+
+
+def install_all():
+    torch.randn = RANDN
+    torch.linalg.cholesky_ex = LINALG.cholesky_ex
+    torch.linalg.eigh = _EIGH
+    torch.linalg.eigvalsh = _EIGVALSH
+    torch.linalg.svd = _SVD
+    torch.linalg.qr = _QR
+
+
+def uninstall_all():
+    torch.randn = REAL["randn"]
+    torch.linalg.cholesky_ex = REAL["cholesky_ex"]
+    torch.linalg.eigh = REAL["eigh"]
+    torch.linalg.eigvalsh = REAL["eigvalsh"]
+    torch.linalg.svd = REAL["svd"]
+    torch.linalg.qr = REAL["qr"]
+    LINALG.reset()
+    CRASH.disarm()
+
+
+# ----------------------------------------------------------------------------------------------------
+# F3: line-granular crash injection via sys.monitoring (PEP 669)
+
+
+class CrashInjector:
+    """Counts / traces LINE events in linear_operator/** (except settings.py) and raises SimAllocFailure at
+    a chosen (file, line, occurrence).  Events are enabled only while counting or armed."""
+
+    def __init__(self):
+        self.tool = None
+        self.lib_prefix = None
+        self.mode = None  # None | "trace" | "armed"
+        self.trace = []
+        self.target = None
+        self.seen = 0
+        self.fired_at = None
+
+    def _ensure(self):
+        if self.tool is not None:
+            return
+        import linear_operator
+
+        self.lib_prefix = os.path.dirname(os.path.abspath(linear_operator.__file__)) + os.sep
+        self.skip = {self.lib_prefix + "settings.py", self.lib_prefix + "beta_features.py"}
+        mon = sys.monitoring
+        for tid in (mon.PROFILER_ID, mon.OPTIMIZER_ID, 3, 4):
+            if mon.get_tool(tid) is None:
+                mon.use_tool_id(tid, "verif-sim")
+                self.tool = tid
+                break
+        if self.tool is None:
+            raise RuntimeError("no free sys.monitoring tool id")
+        mon.register_callback(self.tool, mon.events.LINE, self._on_line)
+
+    def _on_line(self, code, line):
+        fn = code.co_filename
+        if not fn.startswith(self.lib_prefix) or fn in self.skip:
+            return sys.monitoring.DISABLE
+        if self.mode == "trace":
+            self.trace.append((fn[len(self.lib_prefix):], line))
+        elif self.mode == "armed":
+            t = self.target
+            if t[0] == fn[len(self.lib_prefix):] and t[1] == line:
+                self.seen += 1
+                if self.seen == t[2]:
+                    self.mode = None
+                    self.fired_at = (t[0], t[1], t[2])
+                    sys.monitoring.set_events(self.tool, 0)
+                    raise SimAllocFailure(f"injected failure at {t[0]}:{t[1]} (occurrence {t[2]})")
+        return None
+
+    def start_trace(self):
+        self._ensure()
+        self.trace = []
+        self.mode = "trace"
+        sys.monitoring.restart_events()
+        sys.monitoring.set_events(self.tool, sys.monitoring.events.LINE)
+
+    def stop_trace(self):
+        if self.tool is not None:
+            sys.monitoring.set_events(self.tool, 0)
+        self.mode = None
+        t = self.trace
+        self.trace = []
+        return t
+
+    def arm(self, file, line, occurrence):
+        self._ensure()
+        self.target = (file, line, occurrence)
+        self.seen = 0
+        self.fired_at = None
+        self.mode = "armed"
+        sys.monitoring.restart_events()
+        sys.monitoring.set_events(self.tool, sys.monitoring.events.LINE)
+
+    def disarm(self):
+        if self.tool is not None:
+            sys.monitoring.set_events(self.tool, 0)
+        self.mode = None
+        self.target = None
+
+
+CRASH = CrashInjector()
